@@ -20,7 +20,8 @@ LEVEL = "exploration"
 EXHAUSTIVE = {"quick": True, "thorough": True}
 RULE = (
     "totality: every string of length <= N over {a,space,tab,',\",\\,-} is tokenised under a step budget "
-    "(sys.monitoring PY_START events in the tokenizer file, budget 20*len+50); inverse: token lists of 0-4 tokens x 0-5 "
+    "(sys.monitoring PY_START events in the tokenizer file, budget 20*len+50) and a budget of 10 s of process CPU time per call (virtual interval timer; catches "
+    "run-away pattern matching that executes no Python-level step); inverse: token lists of 0-4 tokens x 0-5 "
     "characters over {a,b,space,tab,newline,',\",\\,-,=,e-acute,CJK} that the scheme can express, each token rendered "
     "bare/single/double quoted, joined by varying whitespace runs, must tokenise back exactly; quote-free strings must "
     "equal str.split(); C01-generated lines are parsed (and resolved through an application) from the quoted string and "
@@ -85,13 +86,37 @@ class StepMonitor(object):
         sys.monitoring.free_tool_id(self.TOOL)
 
 
+class CpuBudgetExceeded(BaseException):
+    pass
+
+
+CPU_BUDGET_S = 10.0  # process CPU time (ITIMER_VIRTUAL), not wall-clock: the machine's load does not count
+
+
+def _cpu_alarm(signum, frame):
+    raise CpuBudgetExceeded()
+
+
 def tokenize(sh, mon, StringArgs, s):
     """Returns the tokens or None after recording a totality violation."""
+    import signal
+
     case = {"kind": "string", "string": s}
     mon.arm(len(s))
+    # second termination monitor, for work the step counter cannot see (pattern matching inside the interpreter's
+    # C code): a budget of CPU seconds used by this process; the interpreter checks for signals while matching
+    signal.signal(signal.SIGVTALRM, _cpu_alarm)
+    signal.setitimer(signal.ITIMER_VIRTUAL, CPU_BUDGET_S)
     try:
-        a = StringArgs(s)
-        toks = a.tokens
+        try:
+            a = StringArgs(s)
+            toks = a.tokens
+        finally:
+            signal.setitimer(signal.ITIMER_VIRTUAL, 0)
+    except CpuBudgetExceeded:
+        mon.disarm(len(s))
+        sh.violate("termination", case, "tokenising a string of length %d used more than %.0f s of CPU time (strings of this length take well under a millisecond)" % (len(s), CPU_BUDGET_S))
+        return None
     except StepBudgetExceeded:
         mon.disarm(len(s))
         sh.violate("termination", case, "step budget %d exceeded for a string of length %d" % (20 * len(s) + 50, len(s)))
